@@ -2023,10 +2023,10 @@ class AstEval:
     async def get_target_names(self, lhs):
         """Recursively find all the target names mentioned in the AST tree."""
         names = set()
-        if isinstance(lhs, ast.Tuple):
+        if isinstance(lhs, (ast.Tuple, ast.List)):
             for lhs_elt in lhs.elts:
                 if isinstance(lhs_elt, ast.Starred):
-                    names.add(lhs_elt.value.id)
+                    names = names.union(await self.get_target_names(lhs_elt.value))
                 else:
                     names = names.union(await self.get_target_names(lhs_elt))
         elif isinstance(lhs, ast.Attribute):
@@ -2069,7 +2069,7 @@ class AstEval:
                     for name in await self.get_target_names(target):
                         local_names.add(name)
                         names.add(name)
-            elif cls_name in {"AugAssign", "For", "AsyncFor", "NamedExpr"}:
+            elif cls_name in {"AugAssign", "AnnAssign", "For", "AsyncFor", "NamedExpr"}:
                 for name in await self.get_target_names(arg.target):
                     local_names.add(name)
                     names.add(name)
